@@ -394,6 +394,118 @@ def gen_scenario(rng, si, kind, root, thorough=False):
     return sc
 
 
+def gen_history(rng, si, root):
+    """One implementation process, several survey trees / reductions that share plate numbers but differ in their MJD
+    sets, visited in an interleaved sequence of calls (mjd omitted and explicit; path=, topdir=, environment), plus a
+    file that appears in a tree between two calls.  The expected answer of every call is the one of the tree and
+    reduction named in THAT call: any state surviving from an earlier call (caches keyed too coarsely, leaked
+    environment, reused buffers) shows up as rows of another tree or as a missing file.
+    -> (list of sub-scenarios, group) ; group = {'trees': initial trees, 'seq': [(sub index, call index, build_first)]}"""
+    top = os.path.join(root, 's%03d' % si)
+    nfib = rng.randint(4, 7)
+    plates = [rng.randint(1, 999)] + rng.sample(range(1000, 9999), rng.randint(1, 2))
+    pool = {p: sorted(rng.sample(range(50001, 65534), 3)) for p in plates}
+    R1 = RUN2D_BOSS
+    R2 = rng.choice(['v5_9_0', '26'])
+    run1d = rng.choice(['v5_7_0', 'r1'])
+    P1, P2 = plates[0], plates[1]
+
+    def sets(first, second):
+        d = {P1: [pool[P1][i] for i in first], P2: [pool[P2][i] for i in second]}
+        for p in plates[2:]:
+            d[p] = sorted(rng.sample(pool[p], rng.randint(1, 3)))
+        return d
+    # (label, layout, top, run2d, MJD sets, how the location is passed)
+    spec = [('A', 'path', os.path.join(top, 'A'), R1, sets([0], [0, 2]), 'path'),
+            ('B', 'topdir', os.path.join(top, 'T'), R1, sets([0, 1], [0]), 'topdir'),
+            ('C', 'topdir', os.path.join(top, 'T'), R2, sets([0, 1, 2], [0, 1]), rng.choice(['topdir', 'env'])),
+            ('D', 'topdir', os.path.join(top, 'E'), R1, sets([1], [2]), 'env')]
+    uid = [0]
+
+    def metas_of(msets):
+        out = []
+        for p in plates:
+            for m in msets[p]:
+                uid[0] += 1
+                out.append({'uid': uid[0], 'plate': p, 'mjd': m, 'nfib': nfib, 'npix': rng.randint(3, 8), 'nper': 2,
+                            'c0z': 3 * SCALE + rng.randint(SCALE // 2, SCALE // 2 + 200000), 'c1z': rng.randint(90, 125),
+                            'has_zbest': True, 'has_zall': False, 'has_photo': False})
+        return out
+    subs = []
+    for label, layout, t, run2d, msets, loc in spec:
+        metas = metas_of(msets)
+        subs.append({'si': si, 'kind': 'history', 'sub': label, 'run2d': run2d, 'run1d': run1d, 'loc': loc, 'layout': layout,
+                     'trees': [{'top': t, 'layout': layout, 'run2d': run2d, 'run1d': run1d, 'files': metas}],
+                     'metas': metas, 'calls': []})
+    # A2: a newer spPlate file of plate P1 appears in tree A between two calls
+    extra = metas_of({p: ([pool[P1][2]] if p == P1 else []) for p in plates})
+    a = subs[0]
+    subs.append({'si': si, 'kind': 'history', 'sub': 'A2', 'run2d': a['run2d'], 'run1d': run1d, 'loc': 'path', 'layout': 'path',
+                 'trees': [{'top': a['trees'][0]['top'], 'layout': 'path', 'run2d': a['run2d'], 'run1d': run1d, 'files': extra}],
+                 'metas': a['metas'] + extra, 'calls': []})
+    group = {'trees': [sc['trees'][0] for sc in subs[:4]], 'seq': [], 'top': top}
+    cols = {'plugmap': ['FIBERID', 'CODE', 'OBJTYPE', 'MAG', 'RA'], 'tsobj': ['OBJID', 'MODELFLUX'], 'zans': ['FIBERID', 'Z', 'CLASS']}
+    decoy = os.path.join(top, 'E')
+
+    def add(k, tag, plate, mjd, fiber, reqs, build_first=None):
+        sc = subs[k]
+        kw = {}
+        env = {'SPECTRO_MATCH': os.path.join(top, 'nomatch'), 'PHOTO_RESOLVE': os.path.join(top, 'noresolve', 'x')}
+        if rng.random() < 0.5:
+            kw['run2d'], kw['run1d'] = sc['run2d'], run1d
+        else:
+            env['RUN2D'], env['RUN1D'] = sc['run2d'], run1d
+        redux = 'SPECTRO_REDUX' if sc['run2d'].isdigit() else 'BOSS_SPECTRO_REDUX'
+        t = sc['trees'][0]['top']
+        if sc['loc'] == 'path':
+            kw['path'] = t
+        elif sc['loc'] == 'topdir':
+            kw['topdir'] = t
+            env[redux] = decoy
+        else:
+            env[redux] = t
+        call = {'plate': plate, 'mjd': mjd, 'fiber': fiber, 'kwargs': kw, 'env': env, 'columns': cols,
+                'dtype': rng.choice(['i4', 'i8', 'list']), 'max_rows': len(reqs) + 2}
+        sc['calls'].append({'tag': 'history-%s-%s' % (sc['sub'], tag), 'call': call, 'reqs': reqs, 'znum': None,
+                            'feature': 'history', 'model': {'plate': plate, 'mjd': mjd, 'fiber': fiber}})
+        group['seq'].append((k, len(sc['calls']) - 1, build_first))
+
+    def latest(k, p):
+        return max(m['mjd'] for m in subs[k]['metas'] if m['plate'] == p)
+
+    def omitted_vector(k, build_first=None):
+        ps = plates + [rng.choice(plates) for _ in range(rng.randint(0, 3))]
+        rng.shuffle(ps)
+        reqs = [(p, latest(k, p), rng.randint(1, nfib)) for p in ps]
+        add(k, 'mjd-omitted', aarg([r[0] for r in reqs]), None, aarg([r[2] for r in reqs]), reqs, build_first)
+
+    def omitted_scalar(k):
+        p = rng.choice(plates)
+        f = rng.randint(1, nfib)
+        add(k, 'mjd-omitted-scalar', sarg(p), None, sarg(f), [(p, latest(k, p), f)])
+
+    def explicit(k):
+        reqs = [(m['plate'], m['mjd'], rng.randint(1, nfib)) for m in subs[k]['metas']]
+        rng.shuffle(reqs)
+        while len(reqs) < 2:
+            reqs.append(reqs[0])
+        add(k, 'mjd-given', aarg([r[0] for r in reqs]), aarg([r[1] for r in reqs]), aarg([r[2] for r in reqs]), reqs)
+
+    for k in (0, 1, 2, 3):          # ascending number of MJDs of P1: a remembered answer is stale but still present
+        omitted_vector(k)
+        explicit(k)
+    order = [0, 1, 2, 3]
+    rng.shuffle(order)
+    for k in order:
+        omitted_scalar(k)
+        omitted_vector(k)
+    omitted_vector(4, build_first=[subs[4]['trees'][0]])   # the new file appears, then the same tree is asked again
+    omitted_vector(1)
+    explicit(4)
+    omitted_scalar(2)
+    return subs, group
+
+
 def scenario_plan(ctx):
     if ctx.thorough:
         kinds = ['path'] * 50 + ['path5'] * 8 + ['env'] * 30 + ['env-sdss'] * 15 + ['topdir'] * 20 + ['allfib-sdss'] * 2 + ['allfib-boss'] * 5
@@ -476,33 +588,52 @@ def correspond(ctx, proof_ok=True):
     rng = ctx.rng
     root = os.path.join(ctx.work, 'trees')
     scenarios = [gen_scenario(rng, si, kind, root, ctx.thorough) for si, kind in enumerate(scenario_plan(ctx))]
+    groups = []
+    for g in range(ctx.n(2, 12)):
+        subs, grp = gen_history(rng, len(scenarios) + 1000 * (g + 1), root)
+        grp['base'] = len(scenarios)
+        scenarios += subs
+        groups.append(grp)
     app_cases = gen_append(ctx)
 
+    def with_arrays(t):
+        tt = dict(t)
+        tt['files'] = [file_arrays(m) for m in t['files']]
+        return tt
+
     # ---- run the implementation (tree building + calls), scenarios spread over parallel processes
-    jobs = []
-    for sc in scenarios:
-        trees = []
-        for t in sc['trees']:
-            tt = dict(t)
-            tt['files'] = [file_arrays(m) for m in t['files']]
-            trees.append(tt)
-        jobs.append({'kind': 'scenario', 'trees': trees, 'calls': [cm['call'] for cm in sc['calls']]})
+    jobs = []        # (job, list of (scenario index, call index) in the order of the job's calls)
+    for k, sc in enumerate(scenarios):
+        if sc['kind'] == 'history':
+            continue
+        jobs.append(({'kind': 'scenario', 'trees': [with_arrays(t) for t in sc['trees']], 'calls': [cm['call'] for cm in sc['calls']]},
+                     [(k, j) for j in range(len(sc['calls']))], sum(m['nfib'] for m in sc['metas'])))
+    for grp in groups:
+        calls, back = [], []
+        for (ks, j, build_first) in grp['seq']:
+            c = dict(scenarios[grp['base'] + ks]['calls'][j]['call'])
+            if build_first:
+                c['build_first'] = [with_arrays(t) for t in build_first]
+            calls.append(c)
+            back.append((grp['base'] + ks, j))
+        jobs.append(({'kind': 'scenario', 'trees': [with_arrays(t) for t in grp['trees']], 'calls': calls}, back, 0))
     nb = min(C.NPROC, 14)
     batches = [[] for _ in range(nb)]
     where = []
     # the 640-fibre scenario is the heaviest: own batch
-    order = sorted(range(len(jobs)), key=lambda i: -sum(m['nfib'] for m in scenarios[i]['metas']))
+    order = sorted(range(len(jobs)), key=lambda i: -jobs[i][2])
     for k, i in enumerate(order):
         b = k % nb
         where.append((i, b, len(batches[b])))
-        batches[b].append(jobs[i])
+        batches[b].append(jobs[i][0])
     app_chunks = [app_cases[i::2] for i in range(2)]
     payloads = [{'jobs': b} for b in batches] + [{'jobs': [{'kind': 'append', 'cases': ch}]} for ch in app_chunks]
     outs = C.run_impl_parallel('c16_impl.py', payloads)
     ctx.coverage['pydl_file'] = outs[0]['pydl_file']
-    results = [None] * len(jobs)
+    results = [[None] * len(sc['calls']) for sc in scenarios]
     for i, b, pos in where:
-        results[i] = outs[b]['results'][pos]
+        for (k, j), r in zip(jobs[i][1], outs[b]['results'][pos]):
+            results[k][j] = r
     app_results = [None] * len(app_cases)
     for ci, ch in enumerate(app_chunks):
         for k, r in enumerate(outs[nb + ci]['results'][0]):
@@ -533,6 +664,10 @@ def correspond(ctx, proof_ok=True):
     ctx.coverage['coq_eval_s'] = round(cc.coq_seconds + max(e[1] for e in evals), 1)
 
     # ---- decide
+    seq_pos = {}
+    for grp in groups:
+        for pos, (ks, j, _bf) in enumerate(grp['seq']):
+            seq_pos[(grp['base'] + ks, j)] = (grp, pos)
     dist = {}
     n_calls = 0
     n_rows = 0
@@ -541,7 +676,7 @@ def correspond(ctx, proof_ok=True):
     samples = []
     for k, sc in enumerate(scenarios):
         verdicts, _, terms = evals[k]
-        for cm, res, v, term in zip(sc['calls'], results[k], verdicts, terms):
+        for cj, (cm, res, v, term) in enumerate(zip(sc['calls'], results[k], verdicts, terms)):
             n_calls += 1
             n_rows += len(cm['reqs'] or [])
             outcome = classify(sc, cm, res)
@@ -573,7 +708,7 @@ def correspond(ctx, proof_ok=True):
                 continue
             seen.add(sig)
             rep = {'kind': 'failing-input' if v & 2 else 'broken-correspondence', 'what': 'readspec',
-                   'scenario': {'kind': sc['kind'], 'si': sc['si'], 'run2d': sc['run2d'], 'run1d': sc['run1d'],
+                   'scenario': {'kind': sc['kind'], 'si': sc['si'], 'run2d': sc['run2d'], 'run1d': sc['run1d'], 'metas': sc['metas'],
                                 'trees': [{kk: (t[kk] if kk != 'files' else t['files']) for kk in t} for t in sc['trees']]},
                    'call': cm['call'], 'requests': cm['reqs'], 'znum': cm['znum'], 'tag': cm['tag'],
                    'impl_result': res if 'err' in res else {'names': res['names'], 'arrays': res['arrays'][:1] + res['arrays'][7:], 'bad': res['bad']},
@@ -582,6 +717,15 @@ def correspond(ctx, proof_ok=True):
                                'decoy tree (topdir scenarios) uses uid+100',
                    'meaning': 'verdict bit 2: the returned arrays differ from the request-by-request specification spec_readspec '
                               '(or the call raised although every request is valid); bit 1: the Coq model differs from the implementation'}
+            if (k, cj) in seq_pos:
+                grp, pos = seq_pos[(k, cj)]
+                rep['history'] = {
+                    'note': 'calls made one after the other in ONE process; the last one is the failing call; every call must be '
+                            'answered from the tree / reduction it names (sub-scenario %s)' % sc.get('sub'),
+                    'root': grp['top'], 'trees': grp['trees'],
+                    'sequence': [{'sub': scenarios[grp['base'] + ks]['sub'], 'call': scenarios[grp['base'] + ks]['calls'][j]['call'],
+                                  'requests': scenarios[grp['base'] + ks]['calls'][j]['reqs'], 'build_first': bf}
+                                 for (ks, j, bf) in grp['seq'][:pos + 1]]}
             if v & 2:
                 ctx.violation(sig, 'readspec output contradicts the specification: %s on %s (%s)' % (outcome, cm['tag'], sc['kind']), rep, True)
             else:
@@ -623,6 +767,7 @@ def correspond(ctx, proof_ok=True):
                 'specification readspec_S) or one spec_append call (compared with spec_append and spec_append_S); '
                 'distinct = distinct Coq case terms',
         'readspec_calls': n_calls, 'requested_rows': n_rows, 'spec_append_calls': len(app_cases),
+        'history_groups': len(groups), 'history_calls': sum(len(g['seq']) for g in groups),
         'scenarios': len(scenarios), 'scenario_kinds': {k: scenario_plan(ctx).count(k) for k in sorted(set(scenario_plan(ctx)))},
         'calls_by_kind_tag_outcome': dist,
         'model_disagreements': model_dis, 'spec_violations': spec_vio,
@@ -640,6 +785,8 @@ def replay(ctx, rep):
     if rep.get('what') != 'readspec':
         print('replay file has no input (kind=%s, item=%s)' % (rep.get('kind'), rep.get('item')))
         return 2
+    if rep.get('history'):
+        return replay_history(ctx, rep)
     sc = rep['scenario']
     root = os.path.join(ctx.work, 'replay')
     trees = []
@@ -678,5 +825,55 @@ def replay(ctx, rep):
             flag = '' if exp is None or exp == a else '   <-- differs from specification %s' % ([r[0] for r in exp],)
             if flag or n in ('flux', 'plugmap.FIBERID', 'zans.FIBERID'):
                 print('impl   : %-16s first column %s%s' % (n, [r[0] if r else None for r in a], flag))
+    print('(value = ((uid*1000 + fiber)*100 + hdu)*100 + pixel)')
+    return 0
+
+
+def replay_history(ctx, rep):
+    h = rep['history']
+    old_root, new_root = h['root'], os.path.join(ctx.work, 'replay')
+
+    def mv(x):
+        return new_root + x[len(old_root):] if isinstance(x, str) and x.startswith(old_root) else x
+
+    def tree(t):
+        tt = dict(t)
+        tt['top'] = mv(t['top'])
+        tt['files'] = [file_arrays(m) for m in t['files']]
+        return tt
+    calls = []
+    for st in h['sequence']:
+        c = dict(st['call'])
+        c['kwargs'] = {k: mv(v) for k, v in c['kwargs'].items()}
+        c['env'] = {k: mv(v) for k, v in c['env'].items()}
+        if st.get('build_first'):
+            c['build_first'] = [tree(t) for t in st['build_first']]
+        calls.append(c)
+    out = C.run_impl('c16_impl.py', {'jobs': [{'kind': 'scenario', 'trees': [tree(t) for t in h['trees']], 'calls': calls}]})
+    res = out['results'][0]
+    print(h['note'])
+    for t in h['trees']:
+        print('tree   : %s run2d=%s  %s' % (mv(t['top']), t['run2d'], [(m['plate'], m['mjd'], 'uid=%d' % m['uid']) for m in t['files']]))
+    for n, (st, c, r) in enumerate(zip(h['sequence'], calls, res)):
+        if st.get('build_first'):
+            for t in st['build_first']:
+                print('  (new file appears in %s: %s)' % (mv(t['top']), [(m['plate'], m['mjd'], 'uid=%d' % m['uid']) for m in t['files']]))
+        loc = {k: v for k, v in c['kwargs'].items()}
+        envs = {k: v for k, v in c['env'].items() if k in ('RUN2D', 'BOSS_SPECTRO_REDUX', 'SPECTRO_REDUX')}
+        got = ('raised %s' % r['err']) if 'err' in r else 'flux first column %s' % [row[0] for row in r['arrays'][0]]
+        print('call %2d [%s]: readspec(plate=%s, mjd=%s, fiber=%s, **%s) env=%s\n         requests %s\n         -> %s' % (
+            n + 1, st['sub'], c['plate'], c['mjd'], c['fiber'], loc, envs, st['requests'], got))
+    files = [file_arrays(m) for m in rep['scenario']['metas']]
+    reqs = [tuple(r) for r in rep['requests']]
+    sp = spec_py(files, reqs, None)
+    last = res[-1]
+    if sp and 'err' not in last:
+        exp = dict(zip(*sp))
+        bad = [n for n, a in zip(last['names'], last['arrays']) if exp.get(n) != a]
+        print('last call: expected flux first column %s ; outputs differing from the specification: %s' % (
+            [r[0] for r in exp['flux']], bad))
+    elif sp:
+        print('last call: every request is valid (expected flux first column %s) but the call raised %s' % (
+            [r[0] for r in dict(zip(*sp))['flux']], last['err']))
     print('(value = ((uid*1000 + fiber)*100 + hdu)*100 + pixel)')
     return 0
